@@ -19,7 +19,7 @@ LEVEL = "model_checking"
 RULE = (
     "Exhaustive product: region {4 given regions, bounding box inferred from every k-subset (k=2..4) of 6 marker points} x "
     "block spec {shapes incl. (1,1),(1,n),(n,1); scalar and per-direction spacings, dividing or not} x adjust x array form "
-    "{1-D, 2-D, with extra coordinate} x dyadic scale/offset frames; in each case every node of the quarter-unit lattice over the "
+    "{1-D, 2-D C / Fortran order, with extra coordinate, integer dtype for both or one coordinate} x dyadic scale/offset frames; in each case every node of the quarter-unit lattice over the "
     "region plus one block on every side is labelled and compared with exact rational block edges (edge points: either neighbour; "
     "outside points: clamped per axis). Non-trivial: at least two blocks and one point strictly inside some block."
 )
@@ -47,11 +47,11 @@ def cases(tier, seed):
             for adjust in ("spacing", "region"):
                 if "shape" in spec and adjust == "region":
                     continue
-                for form in ("1d", "2d", "2d+extra"):
+                for form in ("1d", "2d", "2d+extra", "2dF", "int", "int_e"):
                     for region in REGIONS:
                         yield dict(frame=fr, spec=spec, adjust=adjust, form=form, region=region, given=True)
-                    if form != "1d" and tier == "quick":
-                        continue
+                    if (form not in ("1d",) and tier == "quick") or form in ("int", "int_e"):
+                        continue   # integer forms drop the non-integer lattice points, which would change an inferred region
                     for k in (2, 3, 4):
                         for sub in itertools.combinations(range(len(MARKERS)), k):
                             yield dict(frame=fr, spec=spec, adjust=adjust, form=form, markers=list(sub), given=False)
@@ -97,13 +97,26 @@ def run(case, rec):
     north = np.array([p[1] * sc + off for p in cloud])
     region = [w * sc + off, e * sc + off, s * sc + off, n * sc + off]
     form = case["form"]
-    if form != "1d":
+    if form in ("2d", "2d+extra", "2dF"):
         # make a 2-D array (pad by repeating the first point so that any count reshapes)
         m = len(east)
         cols = 7
         padn = (-m) % cols
         east = np.concatenate([east, np.repeat(east[:1], padn)]).reshape(-1, cols)
         north = np.concatenate([north, np.repeat(north[:1], padn)]).reshape(-1, cols)
+    if form == "2dF":
+        east, north = np.asfortranarray(east), np.asfortranarray(north)
+    if form in ("int", "int_e"):
+        # integer-valued points passed with an integer dtype (both coordinates, or the easting only): added after seeds C08-1 / C15-2
+        keep = (east == np.round(east)) & (north == np.round(north)) & (np.abs(east) < 2 ** 40) & (np.abs(north) < 2 ** 40)
+        east, north = east[keep], north[keep]
+        if east.size == 0:
+            rec.trivial = True
+            rec.skip("no integer-valued lattice point in this frame")
+            return
+        east = east.astype(np.int64)
+        if form == "int":
+            north = north.astype(np.int64)
     coords = (east, north) if form != "2d+extra" else (east, north, np.arange(east.size, dtype=float).reshape(east.shape))
     kw = dict(adjust=adjust)
     if "shape" in spec:
